@@ -6,6 +6,8 @@ from vf.proxy import SymStr
 from vf import strhom as SH, logic as L
 from pony.orm import serialization as ser
 
+from contracts import c31_entity as EN
+
 META = dict(
     level='proof',
     explanation='Bag._reduce_composite_pk run on symbolic strings yields enc(a) , enc(b) , ... with one replace chain; the local decoding conditions against the '
@@ -195,4 +197,9 @@ CONTRACTS = [
              [('objects_reported_under_distinct_keys_denoting_their_raw_pk', _td_keys), ('collection_lists_distinct_keys_of_all_related_objects', _td_relation_keys)],
              level='bounded', bound='one model: single-column key, multi-attribute composite key, single key attribute referencing a composite-key entity',
              doc='the decision "encode as composite" must follow the number of raw key columns'),
+    Contract('Entity.to_dict', ['pony.orm.core:Entity.to_dict', 'pony.orm.core:EntityMeta._get_attrs_', 'pony.orm.core:Entity._get_raw_pkval_'], EN.td_configs, EN.td_case,
+             [('reports_current_values_and_distinct_relationship_keys', EN.spec)], level='bounded', bound=EN.BOUND_TD),
+    Contract('pickle.round_trip', ['pony.orm.core:Entity.__reduce__', 'pony.orm.core:unpickle_entity', 'pony.orm.core:QueryResult.__getstate__', 'pony.orm.core:QueryResult.__setstate__',
+                                   'pony.orm.core:Entity._db_set_'], EN.pk_configs, EN.pk_case,
+             [('unpickled_objects_have_equal_attribute_values', EN.spec)], level='bounded', bound=EN.BOUND_PK),
 ]
